@@ -1629,3 +1629,7 @@ cdef class NNPS(NNPSBase):
         for name, arr in pa.properties.items():
             stride = pa.stride.get(name, 1)
             arr.c_align_array(indices, stride)
+
+        # The ordering interleaves ghost/remote particles with the local
+        # ones, move the local particles back to the front.
+        pa.align_particles()
